@@ -52,6 +52,7 @@ def tree_hash(repo, flavour):
     h.update(flavour.encode())
     h.update(open(os.path.abspath(__file__), "rb").read())
     h.update(open(os.path.join(VERIF, "engine", "verif_pre.inc"), "rb").read())
+    h.update(open(os.path.join(VERIF, "engine", "isaclass.py"), "rb").read())
     files = []
     for d in ("include", "crc", "erasure_code", "igzip", "mem", "raid"):
         for root, _, fs in os.walk(os.path.join(repo, d)):
@@ -151,9 +152,12 @@ def build(flavour, repo="/repo"):
         f.write("  {0,0,0,0,0}};\nint verif_nslots = %d;\n" % len(slots))
     json.dump({"flavour": flavour, "hash": hsh, "slots": slots, "csrc": csrc, "asrc": asrc},
               open(os.path.join(out, "info.json"), "w"), indent=1)
-    for o in objs:
-        if not fl["asm"] or True:
-            pass
+    if fl["asm"]:
+        sys.path.insert(0, os.path.join(VERIF, "engine"))
+        import isaclass
+        if isaclass.main(out) != 0:
+            sys.stderr.write("BUILD FAILED: instruction classifier failed closed\n")
+            raise SystemExit(2)
     open(os.path.join(out, "DONE"), "w").write("ok\n")
     return out
 
